@@ -49,6 +49,9 @@ def gen_def(rng, max_proc=6, max_flows=12, max_stocks=3, hostile_names=False, n_
                 items = [ext[j] for j in rng.permutation(len(ext))[:kk_]]
                 if dt is int and rng.random() < 0.6 and 0 not in items:
                     items[0] = 0
+                if dt is str and rng.random() < 0.2:
+                    codes = ["7208", "7210", "2601", "2603", "850760", "2020"]  # product codes: text labels made of digits (no leading zeros)
+                    items = [codes[j] for j in rng.permutation(len(codes))[: len(items)]]
         else:
             items = list(items[:nt]) if l == "t" else list(items[: int(rng.integers(1 if rng.random() < 0.15 else 2, len(items) + 1))])
         d.dims.append((l, n, items, dt))
